@@ -16,6 +16,11 @@ def configs(tier):
         cs.append((F, dict(N=N, concurrency=c, capacity=cap, may_stop=True, src_fail=True, fn_fail=True)))
         cs.append((F, dict(N=N, concurrency=c, capacity=cap, may_stop=True, pre_fail=True, fn_fail=False,
                            return_exceptions=True)))
+    # a long tail after an early stop: the feeder can refill the hand-off queue after the consumer drained it
+    cs.append((F, dict(N=4, concurrency=1, capacity=1, lazy_take=1, fn_fail=False)))
+    if tier == 'thorough':
+        cs.append((F, dict(N=5, concurrency=1, capacity=2, lazy_take=1, fn_fail=False)))
+        cs.append((F, dict(N=5, concurrency=1, capacity=1, lazy_take=2, fn_fail=True)))
     return cs
 
 
